@@ -108,7 +108,7 @@ class C10(Prop):
         cfg = swarm_config(rng, base={"name": 6.0, "build": 6.0, "attach": 4.0, "remove": 3.5, "bulk_remove": 1.0,
                                       "orphans": 2.0, "connect": 0.3, "disconnect": 0.1, "bulk_disconnect": 0.05,
                                       "reference": 0.3, "top": 0.2, "bundle": 0.1, "data": 0.3, "hold": 0.0,
-                                      "clone": 0.25, "policy": 0.5, "gc": 0.5, "ns": 0.0, "parse_text": 0.15},
+                                      "clone": 0.25, "policy": 0.5, "gc": 0.5, "ns": 0.0, "parse_text": 0.15, "adopt": 1.2},
                             rel_bias=["library", "definition", "port", "cable", "instance"])
         cfg["names"] = "collide"
         cfg["name_rate"] = rng.choice([0.6, 0.95])
